@@ -249,6 +249,35 @@ pub fn run(tier: Tier) -> Run {
         &mut nontrivial,
     );
 
+    // every ordered pair of declared opcodes looked up one after the other (a lookup must not depend on the previous one)
+    {
+        use rayon::prelude::*;
+        let ops: Vec<(u16, String)> = gd.insts.iter().map(|i| (i.opcode, i.name.clone())).collect();
+        let bad: Vec<crate::report::Viol> = ops
+            .par_iter()
+            .filter_map(|(a, an)| {
+                for (b, bn) in &ops {
+                    let _ = g::CoreInstructionTable::lookup_opcode(*a);
+                    let got = crate::report::guarded(|| g::CoreInstructionTable::lookup_opcode(*b).map(|e| e.opname)).unwrap_or(None);
+                    if got != Some(bn.as_str()) {
+                        return Some(viol(format!("C09:core:pair:{}", bn), format!("lookup_opcode({}) directly after lookup_opcode({}) [Op{}] gives {:?}, declared Op{}", b, a, an, got, bn), json!({"kind": "c09-pair", "first": a, "second": b})));
+                    }
+                    if let (Some(oa), Some(ob)) = (spirv::Op::from_u32(*a as u32), spirv::Op::from_u32(*b as u32)) {
+                        let _ = crate::report::guarded(|| g::CoreInstructionTable::get(oa).opname);
+                        let got = crate::report::guarded(|| g::CoreInstructionTable::get(ob).opname).ok();
+                        if got != Some(bn.as_str()) {
+                            return Some(viol(format!("C09:core:pair:{}", bn), format!("get(Op{}) directly after get(Op{}) gives {:?}", bn, an, got), json!({"kind": "c09-pair", "first": a, "second": b})));
+                        }
+                    }
+                }
+                None
+            })
+            .collect();
+        evals += (ops.len() * ops.len() * 2) as u64;
+        for v in bad.into_iter().take(10) {
+            run.add(v);
+        }
+    }
     // interleaved lookups: the same number through one table, then the other, then the first again
     for n in (0..=0xFFFFu32).chain([0x1_0000, 0x1_001F, u32::MAX]) {
         evals += 3;
